@@ -211,6 +211,26 @@ def uri_gate(ctx, at, cfg):
     tries = [s for s in loop.body if isinstance(s, ast.Try)]
     exc_ok = len(tries) == 1 and any("del attrs[%s]" % attr == norm(x) for h in tries[0].handlers for x in h.body)
     r.check("R9.3", exc_ok, "unparsable-removed", "%s:%d" % (REL, loop.lineno), "an unparsable URL is not removed")
+    # the content-type pattern is anchored at both ends (otherwise a permitted type anywhere in the path would do)
+    import re._parser as sp2
+    pat = None
+    for st in at.module.tree.body:
+        if isinstance(st, ast.Assign) and norm(st.targets[0]) == "data_content_type" and isinstance(st.value, ast.Call):
+            pat = ce.try_eval(st.value.args[0], at.module)
+            flags = [norm(a) for a in st.value.args[1:]]
+    if not isinstance(pat, str):
+        raise AnalysisError("data_content_type is not a constant pattern")
+    import re as _re
+    parsed = sp2.parse(pat, _re.VERBOSE if "re.VERBOSE" in flags else 0)
+    items = list(parsed)
+    anchored = bool(items) and items[0] == (sp2.AT, sp2.AT_BEGINNING) and items[-1] == (sp2.AT, sp2.AT_END)
+    grp = "content_type" in parsed.state.groupdict
+    r.check("R9.3", anchored and grp, "content-type-pattern-anchored", REL,
+            "the data: content-type pattern is not anchored at both ends / lost its content_type group: a permitted type "
+            "inside the payload would be accepted", detail={"anchored": anchored})
+    uses_match = any(isinstance(n, ast.Call) and norm(n.func) == "data_content_type.match" and norm(n.args[0]) == "uri.path"
+                     for n in ast.walk(loop))
+    r.check("R9.3", uses_match, "content-type-from-path", "%s:%d" % (REL, loop.lineno), "the content type is not matched against the parsed URL's path")
     # statements after the parse: the gate proper
     gate = [s for s in loop.body if isinstance(s, ast.If)]
     if len(gate) != 1:
